@@ -38,6 +38,11 @@ CHECKS = {
    text="Every program of the declaration-pool grammar (plus export-specific declarations) that evaluates without error is printed with Value.Syntax under 7 option profiles (All, All+Docs, Final, Concrete, the cue eval / eval -a / export --out cue sets) at the root and at every top-level field, formatted, compiled stand-alone in a fresh context and compared with the original through a profile-specific projection of canon.",
    note="Trusts package canon and its per-profile projections. Five known exporter findings are listed in known_findings.jsonl (dangling references for sub-values, a mis-hoisted let, close() nesting, a reference cycle).",
    ref="DESIGN.md §3 C07"),
+ "C08": dict(engine="enum",
+   technique="exhaustive exploration of the repository corpus and of every single-gap (thorough: pairwise) layout mutation of a seed set through the real parser and formatter; position-free AST dump + comment inventory as oracle",
+   text="Every CUE source of the repository (<=20 KiB) and every generated seed program, unmutated, plus every single-gap layout mutation (5 fillers: nothing, space, newline, blank line, line comment) at every token gap of the seed set and of a spread of corpus files: if the input parses, format.Source must succeed, the position-free syntax tree (literals by value) and the comment inventory per top-level declaration must be unchanged, formatting twice must equal formatting once; with Simplify() the output must parse, be idempotent and evaluate to the same canon value.",
+   note="Trusts the reflection-based AST dump and package canon. Comment slots inside a declaration are not compared (only presence, text and owning top-level declaration). Known formatter findings (line comments in slot-less positions, trailing-comma idempotence, two -s rewrites) are in known_findings.jsonl.",
+   ref="DESIGN.md §3 C08"),
  "C09": dict(engine="enum",
    technique="bounded-exhaustive enumeration of token strings / strings x quoting forms / literal spellings on the real scanner, parser and literal package (explicit-state, no sampling)",
    text="Every token string up to the length bound, every string over a hostile rune alphabet under every quoting form and every literal-candidate spelling up to the bound is executed on the real code and checked against position invariants, Unquote(Quote(s))==s and three-way validity agreement. Exhaustive within the stated alphabet/bound; says nothing beyond it.",
